@@ -93,7 +93,7 @@ def func_src(slot, copy, fde, linkage, cie):
     return s + f".size {name},.-{name}\n"
 
 
-def plan(states, cie):
+def plan(states, cie, order=0):
     """-> (sources {role: asm or None}, copies {marker id: info}, archive slots [(slot, fde)])."""
     src = {"r": "", "a": "", "b": "", "d": ""}
     copies = {}
@@ -126,6 +126,13 @@ def plan(states, cie):
             copies[marker_id(slot, "x")] = dict(
                 slot=slot, copy="x", fde=fde, fate=fate, obj="x", wins=False,
                 cie=(cie if slot & 1 else "default"), size=func_size(slot))
+    if order:
+        # Declare each object's function sections in reverse order first: the sections (and so the
+        # functions' addresses) then run opposite to the FDEs in that object's .eh_frame.
+        for role in ("a", "b", "d"):
+            decl = re.findall(r"^\.section [^\n]*\n", src[role], re.M)
+            if len(decl) > 1:
+                src[role] = "".join(reversed(decl)) + src[role]
     need_pers = cie == "personality"
     r = '.section .text._start,"ax",@progbits\n.globl _start\n.type _start,@function\n_start:\n'
     r += "".join(f" call f{s}\n" for s in calls)
@@ -172,8 +179,8 @@ def write_ar(path, members):
 
 
 def member_inputs(m):
-    states, cie, gc, kind, hdr = m
-    src, copies, arch = plan(states, cie)
+    states, cie, gc, kind, hdr, order = m
+    src, copies, arch = plan(states, cie, order)
     files = [OBJ[src["r"]]]
     for role in ("a", "d", "b"):
         if src[role]:
@@ -184,7 +191,7 @@ def member_inputs(m):
 
 
 def member_flags(m):
-    states, cie, gc, kind, hdr = m
+    states, cie, gc, kind, hdr, order = m
     fl = ["--gc-sections" if gc else "--no-gc-sections",
           "--eh-frame-hdr" if hdr else "--no-eh-frame-hdr"]
     if kind == "shared":
@@ -212,7 +219,7 @@ def find_markers(e):
 
 def judge(path, m, copies):
     """-> (violations [(key, what)], stats)."""
-    states, cie, gc, kind, hdr_on = m
+    states, cie, gc, kind, hdr_on, order = m
     v, st = [], {}
     e = elfread.Elf(path)
     marks = find_markers(e)
@@ -383,15 +390,15 @@ def digest_eh(path):
 
 
 def describe(m):
-    states, cie, gc, kind, hdr = m
+    states, cie, gc, kind, hdr, order = m
     return {"slots": state_str(states), "cie": cie, "gc": bool(gc), "kind": kind,
-            "eh_frame_hdr": bool(hdr)}
+            "eh_frame_hdr": bool(hdr), "sections_reversed": bool(order)}
 
 
 def replay_dict(m, extra=None):
-    states, cie, gc, kind, hdr = m
-    src, copies, arch = plan(states, cie)
-    d = dict(describe(m), member=[list(map(list, states)), cie, gc, kind, hdr],
+    states, cie, gc, kind, hdr, order = m
+    src, copies, arch = plan(states, cie, order)
+    d = dict(describe(m), member=[list(map(list, states)), cie, gc, kind, hdr, order],
              flags=member_flags(m),
              inputs=["r.o"] + [f"{r}.o" for r in ("a", "d", "b") if src[r]] +
                     (["lib.a (" + " ".join(f"x{s}.o" for s, _f in arch) + ")"] if arch else []),
@@ -452,7 +459,7 @@ def prepare(members, base):
     """Assemble every distinct object and write every distinct archive the members need."""
     srcs, archs = set(), set()
     for m in members:
-        src, _copies, arch = plan(m[0], m[1])
+        src, _copies, arch = plan(m[0], m[1], m[5])
         srcs.update(s for s in src.values() if s)
         if arch:
             archs.add((tuple(arch), m[1]))
@@ -486,18 +493,22 @@ def family(thorough):
     if thorough:
         for states in itertools.product(STATES, repeat=4):
             for gc, kind, hdr in itertools.product((1, 0), ("exe", "shared"), (1, 0)):
-                fam.append((states, "default", gc, kind, hdr))
+                fam.append((states, "default", gc, kind, hdr, 0))
+            for gc in (1, 0):
+                fam.append((states, "default", gc, "exe", 1, 1))
             for cie in ("personality", "signal"):
                 for gc in (1, 0):
-                    fam.append((states, cie, gc, "exe", 1))
-                fam.append((states, cie, 1, "shared", 1))
+                    fam.append((states, cie, gc, "exe", 1, 0))
+                fam.append((states, cie, 1, "shared", 1, 0))
+                fam.append((states, cie, 0, "exe", 1, 1))
     else:
         for i, states in enumerate(multisets()):
             states = states[i % 4:] + states[:i % 4]       # vary which object gets which state
             for gc in (1, 0):
-                fam.append((states, "default", gc, "exe", 1))
-            fam.append((states, "default", 1, "shared", 1))
-            fam.append((states, "default", 1, "exe", 0))
+                fam.append((states, "default", gc, "exe", 1, 0))
+            fam.append((states, "default", 0, "exe", 1, 1))
+            fam.append((states, "default", 1, "shared", 1, 0))
+            fam.append((states, "default", 1, "exe", 0, 0))
     return fam
 
 
@@ -505,7 +516,7 @@ def sweep_family(thorough):
     sub = [s for s in itertools.product([("R", 1), ("G", 1), ("C", 1)], repeat=4)]
     if not thorough:
         sub = sub[:50]
-    return [(s, "default", 0, "exe", 1) for s in sub]
+    return [(s, "default", 0, "exe", 1, i & 1) for i, s in enumerate(sub)]
 
 
 # ------------------------------------------------------------------- native unwinder (thorough)
@@ -598,7 +609,7 @@ def replay(chk):
         doc = json.load(f)
     rp = doc["replay"]
     mm = rp["member"]
-    m = (tuple(tuple(s) for s in mm[0]), mm[1], mm[2], mm[3], mm[4])
+    m = (tuple(tuple(s) for s in mm[0]), mm[1], mm[2], mm[3], mm[4], mm[5] if len(mm) > 5 else 0)
     base = os.path.join("/dev/shm", f"verif.c10replay.{os.getpid()}")
     os.makedirs(base, exist_ok=True)
     prepare([m], base)
@@ -672,10 +683,10 @@ def main():
             if m[4] and not st.get("hdr") and st.get("n_fde"):
                 hdr_absent += 1
             # Non-trivial: FDEs both kept and dropped, i.e. the filter had to decide.
-            _src, copies, _arch = plan(m[0], m[1])
+            _src, copies, _arch = plan(m[0], m[1], m[5])
             n_in = sum(1 for c in copies.values() if c["fde"])
             if 0 < st.get("n_fde", 0) < n_in:
-                sigs.add((state_str(m[0]), m[1], m[2], m[3], m[4]))
+                sigs.add((state_str(m[0]),) + tuple(m[1:]))
             if len(samples) < 3 and 0 < st.get("n_fde", 0) < n_in and m[0][0][0] != m[0][1][0]:
                 samples.append(dict(describe(m), flags=member_flags(m), stats=st))
         lap("family")
@@ -750,10 +761,11 @@ def main():
         "samples": samples,
         "exhaustive": True,
         "family": ("all 8^4 ordered slot states x {gc,nogc} x {exe,shared} x {hdr,no hdr} with the "
-                   "default CIE; x {personality, signal} CIE shapes with (gc,exe,hdr) (nogc,exe,hdr) "
-                   "(gc,shared,hdr)") if chk.thorough else
+                   "default CIE, + sections reversed x {gc,nogc} (exe,hdr); x {personality, signal} CIE "
+                   "shapes with (gc,exe,hdr) (nogc,exe,hdr) (gc,shared,hdr) (nogc,exe,hdr,reversed)") if chk.thorough else
                   ("330 multisets of slot states (multiset number i assigned to the slots rotated by i mod 4), default CIE: "
-                   "(gc,exe,hdr) (nogc,exe,hdr) (gc,shared,hdr) (gc,exe,no hdr)"),
+                   "(gc,exe,hdr) (nogc,exe,hdr) (nogc,exe,hdr,sections reversed) (gc,shared,hdr) "
+                   "(gc,exe,no hdr)"),
         "links": n_eval + n_sweep,
         "link_failed": link_failed,
         "sweep_members": len(sweep), "sweep_links": n_sweep,
